@@ -484,6 +484,13 @@ def r12_output_point_total(ctx, rule):
     if not arg_ok:
         ctx.bad(rule, q, 'writes ' + U(w.value)[:60], 'the output point writes exactly the guess it was given, one per line', None, w)
         return
+    rebound = stores_in(fn).get(params(fn)[1], [])
+    if rebound:
+        ctx.bad(rule, q, 'the guess is re-bound before it is written: ' + U(rebound[0][0])[:60],
+                'the output point writes exactly the guess it was given: a guess that ends in a blank (an Other value such as "! ", an '
+                'OMEN string over an alphabet with a space) is a member of the product, its trimmed form is not, and the file output '
+                'path still writes the untrimmed one', None, rebound[0][0])
+        return
     if not cfg.every_path_passes(cfg.entry, cfg.exit, {wn}, avoid_edges=avoid):
         wp = cfg.witness_path(cfg.entry, cfg.exit, avoid=[wn])
         ctx.bad(rule, q, 'a path through print_guess skips the write',
